@@ -199,10 +199,10 @@ static SPECS: &[PropertySpec] = &[
         id: "C14",
         scenario: props::c14::scenario,
         level: "exploration",
-        rule: "the full matrix {chain to added root, self-signed, unknown issuer, expired} x {name matches, differs} x accept_invalid_certs x accept_invalid_hostnames x root {none, the fixtures' CA, an unrelated CA after another session that added the fixtures' CA completed a handshake with the same flags} x {direct, via CONNECT, https proxy} x flag placed on {session, request, sibling request (prepared only), request overriding a session that waives both checks, session configured twice, sibling request that is sent first, request sent after a strict sibling, session changed in place between two requests} = 3072 cells, plus 48 cells for an https URL through an https proxy (TLS inside TLS: the proxy's identity x the origin's identity x the two flags, with names that do not overlap, so that each handshake is shown to be checked against its own peer's name), walked completely by run index (exhaustive for the matrix; each cell repeated under different scheduler/aux seeds); peers are rustls ServerConnection state machines driven by the kernel; the client handshake runs over the library's own BaseStream; distinct = matrix cell; every cell non-trivial",
-        quick_runs: 6240,
+        rule: "the full matrix {chain to added root, self-signed, unknown issuer, expired} x {name matches, differs} x accept_invalid_certs x accept_invalid_hostnames x root {none, the fixtures' CA, an unrelated CA after another session that added the fixtures' CA completed a handshake with the same flags} x {direct, via CONNECT, https proxy} x flag placed on {session, request, sibling request (prepared only), request overriding a session that waives both checks, session configured twice, sibling request that is sent first, request sent after a strict sibling, session changed in place between two requests} = 3072 cells, plus 48 cells for an https URL through an https proxy (TLS inside TLS: the proxy's identity x the origin's identity x the two flags, with names that do not overlap, so that each handshake is shown to be checked against its own peer's name), plus 48 cells in which the peer presents a good certificate without holding its private key, walked completely by run index (exhaustive for the matrix; each cell repeated under different scheduler/aux seeds); peers are rustls ServerConnection state machines driven by the kernel; the client handshake runs over the library's own BaseStream; distinct = matrix cell; every cell non-trivial",
+        quick_runs: 6336,
         matrix_cells: props::c14::CELLS,
-        thorough_runs: 3120 * 60,
+        thorough_runs: 3168 * 60,
         real_components: TLS_REAL,
         stubbed_components: STUB,
         assumptions: &["certificate validity is judged against the real wall clock by the TLS library; fixtures are valid 2020-2120 or expired since 2001 so the outcome does not depend on the date", "this build exercises one TLS back end (see evidence 'extra.backend'); the other back end is a second build of the same check", "no schedule or fault dimension: the matrix is finite and enumerated"],
